@@ -370,6 +370,28 @@ def check_world(ctx, world, results):
                     ctx.violate("kept-despite-covering-superior", facts_e, world)
                 elif dropped:
                     shapes.add("superior-removal")
+    # ---- (e') superiors on the reported result: whatever the order of the internal stages, no reported protocluster
+    #      may have all its core genes inside the reported core of a protocluster of one of its rule's superiors
+    by_name = {r["name"]: r for r in world["rules"]}
+    for c in final:
+        sups = by_name.get(c.product, {}).get("superiors") or []
+        if not sups:
+            continue
+        ctx.count("op:superiors-final")
+        core_ivs = ring.parts_of(c.core_location)
+        core_genes = [g for g in locs if ring.covers(core_ivs, ring.parts_of(locs[g]))]
+        for s in final:
+            if s.product not in sups or not core_genes:
+                continue
+            s_ivs = ring.parts_of(s.core_location)
+            if all(ring.covers(s_ivs, ring.parts_of(locs[g])) for g in core_genes):
+                in_stage_pool = any(s is x for x in (CAP.pre_removal or []))
+                ctx.violate("reported-inferior-inside-reported-superior-core",
+                            {"rule": c.product, "superior": s.product, "core": str(c.core_location),
+                             "superior_core": str(s.core_location), "circular": circular, "L": length,
+                             "superior_has_extenders": bool(by_name[s.product].get("extenders")),
+                             "superior_core_formed_after_removal_stage": not in_stage_pool}, world)
+                break
     for s in shapes:
         ctx.count("shape:" + s)
     # every returned protocluster is one of the final clusters
